@@ -1245,8 +1245,11 @@ static mi_segment_t* mi_segment_reclaim(mi_segment_t* segment, mi_heap_t* heap, 
       segment->abandoned--;
       // get the target heap for this thread which has a matching heap tag (so we reclaim into a matching heap)
       mi_heap_t* target_heap = _mi_heap_by_tag(heap, page->heap_tag);  // allow custom heaps to separate objects
+      if (target_heap != NULL && target_heap != heap && !_mi_heap_memid_is_suitable(target_heap, segment->memid)) {
+        target_heap = NULL;  // never move pages of an exclusive arena into a heap that is not bound to that arena
+      }
       if (target_heap == NULL) {
-        target_heap = (heap->no_reclaim ? heap->tld->heap_backing : heap);
+        target_heap = heap;  // note: `heap` is always suitable for the segment and allowed to reclaim (see the callers)
         _mi_error_message(EFAULT, "page with tag %u cannot be reclaimed by a heap with the same tag (using heap tag %u instead)\n", page->heap_tag, heap->tag );
       }
       // associate the heap with this page, and allow heap thread delayed free again.
@@ -1289,6 +1292,7 @@ static mi_segment_t* mi_segment_reclaim(mi_segment_t* segment, mi_heap_t* heap, 
 // attempt to reclaim a particular segment (called from multi threaded free `alloc.c:mi_free_block_mt`)
 bool _mi_segment_attempt_reclaim(mi_heap_t* heap, mi_segment_t* segment) {
   if (mi_atomic_load_relaxed(&segment->thread_id) != 0) return false;  // it is not abandoned
+  if (heap->no_reclaim) return false;                                  // a heap that can be destroyed never takes in abandoned pages
   if (segment->subproc != heap->tld->segments.subproc)  return false;  // only reclaim within the same subprocess
   if (!_mi_heap_memid_is_suitable(heap,segment->memid)) return false;  // don't reclaim between exclusive and non-exclusive arena's
   const long target = _mi_option_get_fast(mi_option_target_segments_per_thread);
@@ -1313,7 +1317,13 @@ void _mi_abandoned_reclaim_all(mi_heap_t* heap, mi_segments_tld_t* tld) {
   mi_arena_field_cursor_t current;
   _mi_arena_field_cursor_init(heap, tld->subproc, true /* visit all, blocking */, &current);
   while ((segment = _mi_arena_segment_clear_abandoned_next(&current)) != NULL) {
-    mi_segment_reclaim(segment, heap, 0, NULL, tld);
+    if (_mi_heap_memid_is_suitable(heap, segment->memid)) {
+      mi_segment_reclaim(segment, heap, 0, NULL, tld);
+    }
+    else {
+      // don't reclaim between exclusive and non-exclusive arena's (just as in `mi_segment_try_reclaim`)
+      _mi_arena_segment_mark_abandoned(segment);
+    }
   }
   _mi_arena_field_cursor_done(&current);
 }
@@ -1340,6 +1350,7 @@ static long mi_segment_get_reclaim_tries(mi_segments_tld_t* tld) {
 static mi_segment_t* mi_segment_try_reclaim(mi_heap_t* heap, size_t needed_slices, size_t block_size, bool* reclaimed, mi_segments_tld_t* tld)
 {
   *reclaimed = false;
+  if (heap->no_reclaim) return NULL;  // a heap that can be destroyed never takes in abandoned pages
   long max_tries = mi_segment_get_reclaim_tries(tld);
   if (max_tries <= 0) return NULL;
 
